@@ -130,7 +130,9 @@ static int init_websocket_peer(struct websocket_peer *ws_peer, struct http_conne
 {
 	static const char *sub_protocol = "jet";
 
-	init_peer(&ws_peer->peer, is_local_connection, connection->server->ev.loop);
+	if (unlikely(init_peer(&ws_peer->peer, is_local_connection, connection->server->ev.loop) < 0)) {
+		return -1;
+	}
 	ws_peer->peer.send_message = ws_send_message;
 	ws_peer->peer.close = peer_close_websocket_peer;
 
@@ -139,6 +141,8 @@ static int init_websocket_peer(struct websocket_peer *ws_peer, struct http_conne
 
 	int ret = websocket_init(&ws_peer->websocket, connection, true, free_websocket_peer_callback, sub_protocol);
 	if (ret < 0) {
+		br->set_error_handler(br->this_ptr, free_connection, connection);
+		free_peer_resources(&ws_peer->peer);
 		return -1;
 	}
 	ws_peer->websocket.text_message_received = text_message_callback;
@@ -167,6 +171,8 @@ int alloc_websocket_peer(struct http_connection *connection)
 	int ret = init_websocket_peer(ws_peer, connection, connection->is_local_connection);
 	if (likely(ret == 0)) {
 		connection->free_context = free_websocket_peer_with_connection;
+	} else {
+		cjet_free(ws_peer);
 	}
 	return ret;
 }
